@@ -1,6 +1,6 @@
 """C06 - KMeansL1L2: L1 self-consistent in Manhattan geometry, L2 exactly KMeans."""
 from vf import loader
-from vf.core import Clause, Outcome, Violation, require, np_scalars, with_np
+from vf.core import Clause, Outcome, Violation, require, np_scalars, with_np, with_sk
 
 import numpy as np
 from hypothesis import strategies as st
@@ -177,8 +177,8 @@ def _cases(draw, tier="quick"):
 
 
 CLAUSES = [
-    Clause("l1", check_l1, strategy=lambda tier: with_np(_cases(tier)), quick=2400, thorough=40000, quick_shards=12,
+    Clause("l1", check_l1, strategy=lambda tier: with_sk(with_np(_cases(tier))), quick=2400, thorough=40000, quick_shards=12,
            doc="norm='L1': nearest-centre labels, inertia, centres within the data range, predict, transform"),
-    Clause("l2", check_l2, strategy=lambda tier: with_np(_cases(tier)), quick=600, thorough=10000, quick_shards=4,
+    Clause("l2", check_l2, strategy=lambda tier: with_sk(with_np(_cases(tier))), quick=600, thorough=10000, quick_shards=4,
            doc="norm='L2' == sklearn KMeans, exactly"),
 ]
